@@ -204,6 +204,18 @@ def model_predicts_damage(sc):
     return False
 
 
+def starts_in_model(sc, r):
+    """Does the specification's recovery complete at the step where the real one failed?"""
+    steps = sc["steps"]
+    k = r.get("step")
+    if k is None or not (0 <= k < len(steps)) or steps[k].get("a") != "recover":
+        return False
+    if k == len(steps) - 1:
+        return sc.get("out") == "recovered"
+    m = (sc.get("mid") or {}).get(str(k + 1))
+    return bool(m) and m.get("out") == "recovered"
+
+
 def _inflight_after(steps, n):
     """Is there no completed observable point after step n (1-based count of steps taken)?  A `recover` whose final flush is
     crashed again, and steps between FlushBegin and FlushHdr, emit nothing."""
@@ -219,6 +231,10 @@ def default_violation(ctx, finding_of=None):
         if req.get("taint"):
             # the specification's path is in a known-defective class: excused only where the model predicts the damage
             fids = list(req["taint"]) if model_predicts_damage(req) else []
+            # ... and only the damage it predicts: where the model's own recovery (Store!Replay over the torn image, as the
+            # code was found) runs to its end, a real recovery that refuses to start is something else
+            if fids and starts_in_model(req, r) and any(v.startswith("the database does not start") for v in (r.get("viol") or [])):
+                fids = []
         else:
             # the specification's path is clean but the real run's recorded I/O has the signature (the real flush wrote
             # other pages than the model's): the model says nothing about this history
